@@ -194,6 +194,10 @@ type LDOpts struct {
 	DupValues  bool  `json:"dup_values,omitempty"`  // repeat the first value of multi-valued properties
 	SplitNodes bool  `json:"split_nodes,omitempty"` // emit nodes with >1 property as two entries with the same @id
 	Indent     int   `json:"indent,omitempty"`      // 0 compact, n spaces
+	Aliases    bool  `json:"aliases,omitempty"`     // with Context: keyword aliases id/type/value for @id/@type/@value
+	Reverse    bool  `json:"reverse,omitempty"`     // state the last node value of every property on the target node, under @reverse
+	Coerce     bool  `json:"coerce,omitempty"`      // with Context: properties holding node references only get a term definition with "@type":"@id" and their references are written as strings
+	SetObj     bool  `json:"set_obj,omitempty"`     // write value arrays as {"@set":[…]}
 }
 
 type omap struct {
@@ -281,6 +285,50 @@ func (g *Graph) JSONLD(o LDOpts) string {
 		}
 		return full
 	}
+	kw := func(k string) string {
+		if o.Context && o.Aliases {
+			return strings.TrimPrefix(k, "@")
+		}
+		return k
+	}
+	// properties that hold node references only (candidates for "@type":"@id" coercion)
+	refOnly := map[string]bool{}
+	if o.Context && o.Coerce {
+		for _, n := range g.Nodes {
+			for p, vs := range n.Props {
+				if _, seen := refOnly[p]; !seen {
+					refOnly[p] = true
+				}
+				for _, v := range vs {
+					if !v.IsNode() {
+						refOnly[p] = false
+					}
+				}
+			}
+		}
+	}
+	// edges stated on their target: moved[i][p] = how many trailing values of node i's property p are moved,
+	// reverse[j][p] = the nodes that point to j through p
+	moved := map[int]map[string]bool{}
+	reverse := map[int]map[string][]int{}
+	if o.Reverse {
+		for i, n := range g.Nodes {
+			for p, vs := range n.Props {
+				if len(vs) == 0 || !vs[len(vs)-1].IsNode() {
+					continue
+				}
+				j := vs[len(vs)-1].Node
+				if moved[i] == nil {
+					moved[i] = map[string]bool{}
+				}
+				moved[i][p] = true
+				if reverse[j] == nil {
+					reverse[j] = map[string][]int{}
+				}
+				reverse[j][p] = append(reverse[j][p], i)
+			}
+		}
+	}
 	order := o.NodeOrder
 	if len(order) != len(g.Nodes) {
 		order = make([]int, len(g.Nodes))
@@ -294,12 +342,17 @@ func (g *Graph) JSONLD(o LDOpts) string {
 		if o.Unwrap1 && len(vals) == 1 {
 			return vals[0]
 		}
+		if o.SetObj {
+			r := newOmap()
+			r.set("@set", vals)
+			return r
+		}
 		return vals
 	}
 	nodeObj = func(i int, allowEmbed bool, props []string) *omap {
 		n := g.Nodes[i]
 		m := newOmap()
-		m.set("@id", nid(n.ID))
+		m.set(kw("@id"), nid(n.ID))
 		withType := props == nil
 		for _, p := range props {
 			if p == "@type" {
@@ -309,7 +362,7 @@ func (g *Graph) JSONLD(o LDOpts) string {
 		if withType {
 			if len(n.Types) > 0 {
 				if o.TypeString && len(n.Types) == 1 {
-					m.set("@type", iri(n.Types[0]))
+					m.set(kw("@type"), iri(n.Types[0]))
 				} else {
 					ts := make([]any, len(n.Types))
 					for k, t := range n.Types {
@@ -319,8 +372,30 @@ func (g *Graph) JSONLD(o LDOpts) string {
 							ts[k] = iri(t)
 						}
 					}
-					m.set("@type", ts)
+					m.set(kw("@type"), ts)
 				}
+			}
+			if rv := reverse[i]; len(rv) > 0 {
+				rm := newOmap()
+				rps := make([]string, 0, len(rv))
+				for p := range rv {
+					rps = append(rps, p)
+				}
+				sort.Strings(rps)
+				for _, p := range rps {
+					var refs []any
+					for _, src := range rv[p] {
+						if refOnly[p] {
+							refs = append(refs, nid(g.Nodes[src].ID))
+							continue
+						}
+						r := newOmap()
+						r.set(kw("@id"), nid(g.Nodes[src].ID))
+						refs = append(refs, r)
+					}
+					rm.set(iri(p), refs)
+				}
+				m.set("@reverse", rm)
 			}
 		}
 		ps := props
@@ -333,31 +408,36 @@ func (g *Graph) JSONLD(o LDOpts) string {
 			}
 			var vals []any
 			src := n.Props[p]
+			if moved[i][p] {
+				src = src[:len(src)-1]
+			}
 			for vi, v := range src {
 				var jv any
 				if v.IsNode() {
 					if allowEmbed && o.Embed && !emitted[v.Node] {
 						emitted[v.Node] = true
 						jv = nodeObj(v.Node, true, nil)
+					} else if refOnly[p] {
+						jv = nid(g.Nodes[v.Node].ID)
 					} else {
 						r := newOmap()
-						r.set("@id", nid(g.Nodes[v.Node].ID))
+						r.set(kw("@id"), nid(g.Nodes[v.Node].ID))
 						jv = r
 					}
 				} else if v.Lit.K == "t" {
 					r := newOmap()
-					r.set("@value", v.Lit.S)
+					r.set(kw("@value"), v.Lit.S)
 					dt := v.Lit.DT
 					if o.Context && o.XsdPrefix && strings.HasPrefix(dt, XSD) {
 						dt = "xsd:" + strings.TrimPrefix(dt, XSD)
 					}
-					r.set("@type", dt)
+					r.set(kw("@type"), dt)
 					jv = r
 				} else if o.NativeLit {
 					jv = v.Lit.JSON()
 				} else {
 					r := newOmap()
-					r.set("@value", v.Lit.JSON())
+					r.set(kw("@value"), v.Lit.JSON())
 					jv = r
 				}
 				vals = append(vals, jv)
@@ -403,6 +483,24 @@ func (g *Graph) JSONLD(o LDOpts) string {
 		}
 		if o.XsdPrefix {
 			ctx.set("xsd", XSD)
+		}
+		if o.Aliases {
+			ctx.set("id", "@id")
+			ctx.set("type", "@type")
+			ctx.set("value", "@value")
+		}
+		var coerced []string
+		for p, only := range refOnly {
+			if only {
+				coerced = append(coerced, p)
+			}
+		}
+		sort.Strings(coerced)
+		for _, p := range coerced {
+			def := newOmap()
+			def.set("@id", p)
+			def.set("@type", "@id")
+			ctx.set(iri(p), def)
 		}
 	}
 	switch {
